@@ -19,14 +19,16 @@
    `verdict exact s1 s2` is that answer = Isomorphism.check(spec1, spec2).
 
    `exact : bool` selects the "recursive match" test (Iso/Model.v anc_pairs):
-     exact = false  as /repo: _ancestors holds product(eq_path1, eq_path2);
-     exact = true   the repair proposed in findings/C12_asymmetric_check.diff: _ancestors holds
-                    only the pair of current classes.
+     exact = true   /repo as it is (since fix 91c1aef = findings/C12_asymmetric_check.diff):
+                    _ancestors holds only the pair of current classes;
+     exact = false  the code BEFORE 91c1aef: _ancestors held product(eq_path1, eq_path2).
+                    Historic: no case of the harness runs it any more.
    Every theorem below that mentions `exact` holds for BOTH.  The symmetry of the test holds for
-   all specifications with exact = true (C12_symmetric) and is FALSE with exact = false
-   (C12_symmetric_refuted: the open finding asymmetric-check-with-chained-equivalences); there
-   it holds for specifications without chained equivalence rules (C12_symmetric_flat).  The
-   harness detects which of the two the code under test implements and runs the model with it.
+   all specifications with exact = true (C12_symmetric: the code as it is) and was FALSE with
+   exact = false (C12_symmetric_refuted: the finding asymmetric-check-with-chained-equivalences,
+   FIXED by 91c1aef); there it held for specifications without chained equivalence rules
+   (C12_symmetric_flat).  The harness detects which of the two the code under test implements and
+   runs the model with it (today: exact = true).
 
    Hypotheses on specifications (checked on every specification of every run by the
    harness, see harness/props/c12.py `wf`):
@@ -150,10 +152,11 @@ Theorem C12_symmetric : forall s1 s2 f f' b b' st st',
   are_isomorphic true s2 s1 f' = Ok (b', st') -> b = b'.
 Proof. exact symmetric_exact. Qed.
 
-(* ... and with the test of /repo (exact = false) symmetry FAILS on specifications with chained
-   equivalence rules: two well-formed specifications (Iso/Refuted.v; replayed on the real
-   Isomorphism.check by findings/C12_asymmetric_check.py) for which the search answers True one
-   way and False the other.  This is the open finding asymmetric-check-with-chained-equivalences. *)
+(* ... and with the test of /repo BEFORE fix 91c1aef (exact = false) symmetry FAILED on specifications
+   with chained equivalence rules: two well-formed specifications (Iso/Refuted.v; replayed on the
+   Isomorphism.check of that time by findings/C12_asymmetric_check.py) for which the search answers
+   True one way and False the other.  This is the finding asymmetric-check-with-chained-equivalences,
+   fixed in /repo by 91c1aef; the theorem witnesses the old code only. *)
 Theorem C12_symmetric_refuted :
   exists s1 s2 f st st',
     wf_spec s1 /\ wf_spec s2 /\
